@@ -21,7 +21,7 @@ pub struct ClaimsCase {
 fn values_for(which: &str) -> Vec<(Value, Form)> {
     let all = value_alphabet();
     if which == "ws" {
-        // all 7 custom keys (incl. the white-space-only ones) with two values: 3^7 states
+        // all 8 custom keys (incl. the white-space-only and the long one) with two values: 3^8 states
         return [0usize, 5].iter().map(|i| all[*i].clone()).collect();
     }
     if which == "quick" {
@@ -81,7 +81,8 @@ pub fn run(tier: &str) -> i32 {
     let mut plan: Vec<(Proto, &str, usize, bool)> = Vec::new();
     if quick {
         plan.push((Proto::V4L, "quick", 3, false));
-        plan.push((Proto::V4L, "ws", 7, false));
+        plan.push((Proto::V4L, "ws", 8, false));
+        plan.push((Proto::V4L, "full", 1, false)); // one key, every value of the alphabet
         plan.push((Proto::V4L, "quick", 1, true));
         for p in Proto::ALL {
             if p != Proto::V4L {
@@ -91,7 +92,7 @@ pub fn run(tier: &str) -> i32 {
     } else {
         plan.push((Proto::V4L, "full", 4, false));
         plan.push((Proto::V4L, "quick", 5, false));
-        plan.push((Proto::V4L, "ws", 7, false));
+        plan.push((Proto::V4L, "ws", 8, false));
         plan.push((Proto::V4L, "quick", 1, true));
         for p in Proto::ALL {
             if p != Proto::V4L {
@@ -161,7 +162,7 @@ pub fn run(tier: &str) -> i32 {
     all.impl_calls = all.executions * 2;
     all.controls_ok = *all.hist.get("sequence:conforms").unwrap_or(&0);
     let extra = json!({
-        "space": "reachable states of the GenericBuilder reference model (claim key -> last value, absent after remove) over custom keys with quotes/newline/non-BMP/Cyrillic/blank, a 19-element JSON value alphabet (Unicode string, empty, ints incl. u64::MAX, 1.5, bool, null, arrays, depth-5 object, native struct/Option/map/f32, an object whose single member is named like its claim key), 3 constructor forms, remove_claim, and the 7 typed registered claims; plus unmerged sequences",
+        "space": "reachable states of the GenericBuilder reference model (claim key -> last value, absent after remove) over custom keys with quotes/newline/non-BMP/Cyrillic/blank, a 21-element JSON value alphabet (Unicode string, empty, ints incl. u64::MAX, 1.5, bool, null, arrays, depth-5 object, native struct/Option/map/f32, an object whose single member is named like its claim key), 3 constructor forms, remove_claim, and the 7 typed registered claims; plus unmerged sequences",
         "model_runs": model_runs,
         "unmerged_sequence_depth": depth,
         "unmerged_sequences": seq_exec,
